@@ -467,6 +467,17 @@ impl Property for C04 {
             rng.shuffle(&mut args);
             sc.label = format!("many-roots-{}", sc.label);
         }
+        if rng.chance(3) {
+            // a valid but very long target name (its record's file name does not fit in a
+            // directory entry), in a project whose work directory already exists
+            let long = format!("t{}", "x".repeat(rng.range(246, 250)));
+            let mut t = Target::new(&long, Kind::Build);
+            sc.files.push(FileSpec { path: format!("p0/src/{}.txt", "long"), kind: FileKind::File("source of the long-named target\n".into()) });
+            t.input.push(Res::Paths { paths: vec!["src/long.txt".into()], extensions: None });
+            sc.projects[0].targets.push(t);
+            sc.files.push(FileSpec { path: "p0/.zinoma/other.checksums".into(), kind: FileKind::File("state of some other target\n".into()) });
+            args.push(long);
+        }
         if rng.chance(4) {
             // a command resource that prints more than a pipe buffer holds
             let builds: Vec<usize> = (0..sc.projects[0].targets.len()).filter(|&i| sc.projects[0].targets[i].kind == Kind::Build).collect();
@@ -542,7 +553,7 @@ impl Property for C01 {
         if rng.chance(15) {
             // several projects reusing target names, dependencies spelled as `dependencies`, as
             // `X.output`, or both, within and across projects
-            let mut sc = gen::gen_io(rng, &gen::IoOpts { multi_project_pct: 100, max_targets: 7, cmd_pct: 10, cmd_output_pct: 0 });
+            let mut sc = gen::gen_io(rng, &gen::IoOpts { multi_project_pct: 100, max_targets: 7, cmd_pct: 10, cmd_output_pct: 0, own_output_inside_input_pct: 0 });
             let args = gen::gen_request_io(rng, &sc, 0);
             if !args.is_empty() {
                 let inv = standard_invocation(rng, &sc, args);
@@ -607,7 +618,7 @@ impl Property for C08 {
         if rng.chance(30) {
             // several projects with the same target names: names must resolve inside the
             // declaring project, or a target outside the closure runs
-            let mut sc = gen::gen_io(rng, &gen::IoOpts { multi_project_pct: 100, max_targets: 7, cmd_pct: 10, cmd_output_pct: 0 });
+            let mut sc = gen::gen_io(rng, &gen::IoOpts { multi_project_pct: 100, max_targets: 7, cmd_pct: 10, cmd_output_pct: 0, own_output_inside_input_pct: 0 });
             // a link inside one target's filtered output directory to the output directory of
             // another target of the same project: not part of the former's outputs
             let mut links = vec![];
@@ -932,7 +943,11 @@ impl Property for C11 {
             }
             // a service about to restart must tell the builds depending on it (they wait for the
             // new instance instead of running against the one about to be stopped)
-            return super::watch::oracle_c01b(sc, &s.r).filter(|v| v.oracle == "out-of-date-not-announced" && v.witness.contains("kind=Service")).map(|v| Violation { oracle: format!("service-restart:{}", v.oracle), witness: v.witness, message: v.message });
+            // ... and a build must not be started while the latest word from a service it
+            // depends on is that the service is out of date (about to be replaced)
+            return super::watch::oracle_c01b(sc, &s.r)
+                .filter(|v| (v.oracle == "out-of-date-not-announced" && v.witness.contains("kind=Service")) || (v.oracle == "start-while-dependency-out-of-date" && v.witness.contains("dep-kind=Service")))
+                .map(|v| Violation { oracle: format!("service-restart:{}", v.oracle), witness: v.witness, message: v.message });
         }
         eval_oneshot(sc, root, stats, oracle_c11, |c| c.r.procs.iter().any(|p| p.kind == "service"))
     }
@@ -1274,7 +1289,20 @@ impl Property for C20 {
             sc.projects[0].targets.push(t);
         }
         let agg_name = sc.projects[0].targets[a].name.clone();
-        let dep_names: Vec<String> = sc.projects[0].targets[a].deps.iter().map(|d| d.target.clone()).collect();
+        let mut dep_names: Vec<String> = sc.projects[0].targets[a].deps.iter().map(|d| d.target.clone()).collect();
+        if !wide && rng.chance(10) {
+            // the aggregate fans out over an imported project's target of the SAME bare name
+            // (`check: [lib::check, ...]`): names are unique per project only
+            let mut twin = Target::new(&agg_name, Kind::Build);
+            let out = format!("out/{}.out", agg_name);
+            twin.output.push(Res::Paths { paths: vec![out.clone()], extensions: None });
+            twin.writes.push(out);
+            sc.projects.push(Project { dir: "p1".into(), name: Some("lib".into()), imports: vec![], targets: vec![twin], raw_yaml: None });
+            sc.projects[0].imports.push(("lib".into(), 1));
+            sc.files.push(FileSpec { path: "p1/out".into(), kind: FileKind::Dir });
+            sc.projects[0].targets[a].deps.push(DepRef { project: 1, target: agg_name.clone(), via_dep: true, via_output: false, qualified: true });
+            dep_names.push(format!("lib::{}", agg_name));
+        }
         // optionally another requested target alongside (same on both sides)
         let mut common: Vec<String> = vec![];
         if rng.chance(30) {
@@ -1358,9 +1386,14 @@ impl Property for C20 {
                     }
                 }
                 let r = run_invocation(sc, &mut case, inv, &format!("side{}", inv.side));
-                if let Some(h) = harness_error_of(&r) {
-                    stats.harness_errors.push(h);
-                    return None;
+                // zinoma refusing the configuration before anything starts (exit 1, "Error: ...")
+                // is an outcome to compare, not a failure of the harness
+                let refused = r.footer.is_none() && r.code == 1 && r.stderr.contains("Error:");
+                if !refused {
+                    if let Some(h) = harness_error_of(&r) {
+                        stats.harness_errors.push(h);
+                        return None;
+                    }
                 }
                 results.push((inv.clone(), r));
             }
